@@ -344,20 +344,33 @@ where
 
     /// Returns true, if `self` and `other` have equivalent amounts, otherwise
     /// `false`.
+    ///
+    /// The amounts are equivalent if converting either value into the unit
+    /// of the other one yields the other one's amount, so that the result
+    /// does not depend on the order of the operands.
     #[inline(always)]
     fn eq(&self, other: &Self) -> bool {
         self.amount() == other.equiv_amount(self.unit())
+            || other.amount() == self.equiv_amount(other.unit())
     }
 
-    /// Returns the partial order of `self`s amount and `other`s eqivalent
-    /// amount in `self`s unit.
+    /// Returns the partial order of `self`s and `other`s amounts, compared
+    /// in terms of the smaller one of their units (so that the result does
+    /// not depend on the order of the operands).
     fn partial_cmp(&self, other: &Self) -> Option<Ordering> {
         if self.unit() == other.unit() {
             PartialOrd::partial_cmp(&self.amount(), &other.amount())
-        } else {
+        } else if <Self as HasRefUnit>::eq(self, other) {
+            Some(Ordering::Equal)
+        } else if self.unit().scale() < other.unit().scale() {
             PartialOrd::partial_cmp(
                 &self.amount(),
                 &other.equiv_amount(self.unit()),
+            )
+        } else {
+            PartialOrd::partial_cmp(
+                &self.equiv_amount(other.unit()),
+                &other.amount(),
             )
         }
     }
